@@ -157,10 +157,12 @@ def iteration(cfg, crate, rep):
     v = core(Interp(crate).run_fn("DistinguishedName::get")["value"])
     rep.ob("C20.iter", "%s|get" % cfg, isinstance(v, CallV) and v.callee.endswith("HashMap::get") and core(v.args[0]).r() == "self.entries" and core(v.args[1]).r() == "ty", "get() reads `entries`", found=v.r())
     # the Name writer consumes iter()
-    b = crate.body("write_distinguished_name")
-    fors = [n for n in common.hir_walk(b["hir"]) if n["k"] == "For"]
-    ok = len(fors) == 1 and (fors[0]["iter"].get("callee") == "DistinguishedName::iter")
-    rep.ob("C20.iter", "%s|name-writer" % cfg, ok, "the encoded Name lists the attributes in iter() order")
+    import schema as S_
+    Iw = Interp(crate)
+    outw = Iw.run_fn("write_distinguished_name")
+    overs = sorted({r_ for n, p_, c_, r_ in S_.walk(S_.norm(outw["items"])) if r_})
+    ok = overs == [("DistinguishedName::iter(dn)",)]
+    rep.ob("C20.iter", "%s|name-writer" % cfg, ok, "the encoded Name lists the attributes in iter() order (the one repetition of the Name writer ranges over dn.iter())", found=overs)
     # the unordered map may be probed / updated by key and tested for emptiness, never enumerated or handed out
     PROBES = {"get", "get_mut", "contains_key", "insert", "remove", "is_empty", "len", "entry", "remove_entry", "get_key_value"}
     bad_uses = []
